@@ -51,6 +51,23 @@ Corollary C19_idle_thread_completed_its_requests :
 Proof. intros fields reqs sched i t r. rewrite src_working_set_is_thread_local. apply idle_thread_completed_its_requests. Qed.
 Print Assumptions C19_idle_thread_completed_its_requests.
 
+(* ... and what a completed request RETURNS does not depend on the schedule either: a thread that finds a class in ITS working set
+   binds that attribute late, another thread binds it directly, and whichever hook reaches the shared cache first is the one every
+   later call uses -- for the late binding T1 reads off the current source all of them compute the documented encoding
+   (Model/LateBinding.v; the working set [ws] is whatever the generating thread had in progress). *)
+From V.Model Require Import LateBinding.
+From V.Gen Require Import LateSrc.
+From V.Proofs Require Import LateBindingProofs.
+Theorem C19_hooks_generated_under_any_working_set_agree :
+  forall (classes : N -> option (list (N * N))) (k1 k2 : nat) (ws1 ws2 : list N) (c : N) (n : nat) (v : lval) (r1 r2 : lout),
+    src_late_unstructure_by_declared = true ->
+    hook_sem classes src_late_unstructure_by_declared k1 ws1 c n v = Some r1 ->
+    hook_sem classes src_late_unstructure_by_declared k2 ws2 c n v = Some r2 -> r1 = r2.
+Proof. intros classes k1 k2 ws1 ws2 c n v r1 r2 E. rewrite E. apply entry_point_irrelevant. Qed.
+Print Assumptions C19_hooks_generated_under_any_working_set_agree.
+Lemma src_late_binding_keeps_the_declared_type_19 : src_late_unstructure_by_declared = true.
+Proof. reflexivity. Qed.
+
 (* the model CAN exhibit the failure: with one working set shared by all threads, a second thread
    that first-uses class 1 while the first thread is still generating its hook gets a RecursionError *)
 Local Open Scope N_scope.
